@@ -657,7 +657,10 @@ def run_failed_then_next(ctx, tmp):
 # --------------------------------------------------------------------------- round trip
 
 NAME_PARTS = ["example.org", "::1", "[::1]", "2001:db8::1", "a.b.c", "x:y", 'q"uote', "back\\slash", "ha#sh", "eq=uals", "[br]", "new\nline", "tab\there",
-              "ünï", "中文.example", "", " ", "host with space", "'single'", "dot.", ".", "a" * 300, "ctrl\x01", "emoji\U0001F600", "k=v;x", "{}", "\"\"\"", "'''", "\\n", "\r"]
+              "ünï", "中文.example", "", " ", "host with space", "'single'", "dot.", ".", "a" * 300, "ctrl\x01", "emoji\U0001F600", "k=v;x", "{}", "\"\"\"", "'''", "\\n", "\r",
+              # one visible name, several code-point sequences (and case / width variants): all distinct keys
+              "cafe\u0301.example", "caf\u00e9.example", "\u212b.example", "\u00c5.example", "A\u030a.example", "\ufb01le.example", "file.example", "File.Example",
+              "\uff45xample.org", "stra\u00dfe.example", "strasse.example", "\u0130stanbul.example", "i\u0307stanbul.example", "\u200bzero-width.example", "zero-width.example"]
 
 
 def run_roundtrip(ctx, tmp, rng):
@@ -710,6 +713,10 @@ def type_of(name):
     if "\n" in name or "\r" in name or "\t" in name or "\x01" in name:
         return "control"
     if not name.isascii():
+        import unicodedata
+
+        if unicodedata.normalize("NFC", name) != name or unicodedata.normalize("NFKC", name) != name:
+            return "non-ascii-not-normalised"
         return "non-ascii"
     if any(c in name for c in "\"'\\#=[]{}"):
         return "toml-meta"
